@@ -149,6 +149,24 @@ def generate(g, tier):
         c['meta'] = dict(family='general')
         cases.append(c)
     cases += ast_cases(g, count(tier, 100, 1000), None, (6, 16), 4, 'ast')
+    # what a compilation emits and warns about is its own business: the same Compiler object (built with an explicit options object, or
+    # with none) compiled other things before — files whose STARTENV / START / STARTCODE import failed or succeeded, programs that warned,
+    # programs that failed — and then a program with block keywords that have no block and `$$` names (warnings are due), or a plain one
+    r_ = g.r
+    LAST = ['FUNC greet\n$$STRING "n is "+3', 'IF a == 5\nWHILE (x<20) THEN\nSTRING x', 'ELSE\nDELAY 5', 'DELAY 5\nCTRL c\nSTRING plain', '$$DELAY 7\nIGNORED x']
+    for _ in range(count(tier, 60, 400)):
+        key = r_.choice(['k', 'k', None])
+        opts = r_.choice([{}, dict(include_comments=True), None, dict(flipper_commands=True, stack_limit=30)])
+        steps = []
+        for j in range(r_.randint(1, 3)):
+            kw = r_.choice(['STARTENV', 'STARTENV', 'START', 'STARTCODE'])
+            lib = r_.choice(['VAR v 1\nGUI toolong', 'FUNC f\n    STRING x\n$STRING 1/0', 'VAR v 1\nSTRING fine', 'NOPE x\nVAR 1x 2', 'STRING a\n  STRING b'])
+            if g.chance(0.7):
+                steps.append(dict(op='compile_file', compiler=key, opts=opts, dir=f's{j}', file='proj/main.txt', files={'proj/main.txt': f'STRING before\n{kw} lib\nSTRING after', 'proj/lib.txt': lib}))
+            else:
+                steps.append(dict(op='compile', compiler=key, opts=opts, dir=f's{j}', src=dict(text=r_.choice(['HOLD a', 'GUI xx', '$DELAY 1/0', 'IGNORE\n    DELAY x']))))
+        steps.append(dict(op='compile', compiler=key, opts=opts, dir='last', src=dict(text=r_.choice(LAST))))
+        cases.append(dict(op='history', steps=steps, meta=dict(family='after-others', nocorr=True)))
     return cases
 
 
@@ -167,6 +185,11 @@ def ignore_bodies(text):
 def oracle(cases, results):
     fs = []
     for i, (c, r) in enumerate(zip(cases, results)):
+        if c.get('op') == 'history':
+            # the clauses are judged on the LAST compilation of the history, whatever was compiled before it in the process
+            if r.get('kind') != 'history' or not r.get('results'):
+                fs.append(fail(i, f'history did not run: {str(r)[:200]}', 'history:broken')); continue
+            c, r = c['steps'][-1], r['results'][-1]
         if r.get('kind') != 'ok': continue
         verbatim = ignore_bodies(c['src'].get('text', '')) if 'text' in c.get('src', {}) else set()
         for l in r['out']:
